@@ -10,6 +10,7 @@ discipline named by its position in the listing; `edge ds i j` is an edge of
 import GemseoVerif.Lemmas.C08Scc
 import GemseoVerif.Lemmas.C08Coupling
 import GemseoVerif.Lemmas.C08Chain
+import GemseoVerif.Lemmas.C08Perm
 
 namespace GV.C08
 
@@ -315,6 +316,47 @@ theorem chain_equals_monolithic (bs : List BlockSpec) (e : Env)
   intro b c hbc k hkb hkc
   exact hbc k hkc (List.mem_append_left _ hkb)
 
+/-! ### The listing order does not matter (`order_invariance`) -/
+
+/-- Mutual dependency is a property of the disciplines, not of the order in which they are
+    listed. -/
+theorem mutuallyDependent_relisting (ds ds' : List Disc) (σ τ : Nat → Nat)
+    (h : Relisting ds ds' σ τ) (i j : Nat) (hi : i < ds.length) (hj : j < ds.length) :
+    MutuallyDependent ds' i j ↔ MutuallyDependent ds (σ i) (σ j) := by
+  unfold MutuallyDependent
+  rw [← adj_edge_eq, ← adj_edge_eq, h.rtg_iff hi hj, h.rtg_iff hj hi]
+
+/-- `order_invariance`: listing the same disciplines in another order (`ds'[i] = ds[σ i]`) gives
+    the same groups as sets — each group of the new sequence is, up to the renumbering, a group
+    of the old one — and the new sequence is again a valid schedule (`each_once`,
+    `groups_are_sccs`, `producers_strictly_before` hold for every listing, hence for `ds'`). -/
+theorem order_invariance (ds ds' : List Disc) (σ τ : Nat → Nat) (h : Relisting ds ds' σ τ) :
+    (∀ g' ∈ (sequence ds').flatten, ∃ g ∈ (sequence ds).flatten,
+        ∀ j, j < ds.length → (j ∈ g' ↔ σ j ∈ g)) ∧
+    (∀ g ∈ (sequence ds).flatten, ∃ g' ∈ (sequence ds').flatten,
+        ∀ k, k < ds.length → (k ∈ g ↔ τ k ∈ g')) := by
+  have key : ∀ (ds ds' : List Disc) (σ τ : Nat → Nat), Relisting ds ds' σ τ →
+      ∀ g' ∈ (sequence ds').flatten, ∃ g ∈ (sequence ds).flatten,
+        ∀ j, j < ds.length → (j ∈ g' ↔ σ j ∈ g) := by
+    intro ds ds' σ τ h g' hg'
+    obtain ⟨i, hig'⟩ := List.exists_mem_of_ne_nil _ ((no_empty_stage_or_group ds').2 g' hg')
+    have hi' : i < ds'.length := ((group_is_scc ds' g' hg' i hig' i).1 hig').1
+    have hi : i < ds.length := h.length_eq ▸ hi'
+    obtain ⟨g, hg, hσi⟩ : ∃ g ∈ (sequence ds).flatten, σ i ∈ g := by
+      have := (each_once ds).mem_iff.2 (List.mem_range.2 (h.σ_lt i hi))
+      simpa [List.mem_flatten] using this
+    refine ⟨g, hg, fun j hj => ?_⟩
+    rw [group_is_scc ds' g' hg' i hig' j, group_is_scc ds g hg (σ i) hσi (σ j),
+      mutuallyDependent_relisting ds ds' σ τ h i j hi hj, h.length_eq]
+    constructor
+    · rintro ⟨_, _, hm⟩; exact ⟨h.σ_lt i hi, h.σ_lt j hj, hm⟩
+    · rintro ⟨_, _, hm⟩; exact ⟨hi, hj, hm⟩
+  refine ⟨key ds ds' σ τ h, ?_⟩
+  have := key ds' ds τ σ h.symm
+  intro g hg
+  obtain ⟨g', hg', hiff⟩ := this g hg
+  exact ⟨g', hg', fun k hk => hiff k (h.length_eq ▸ hk)⟩
+
 /-! ### Non-vacuity: a five-discipline example with a cycle, a self-loop and an isolated discipline -/
 
 /-- `A: x ↦ a`, `B: a,c ↦ b`, `C: b ↦ c`, `D: c,d ↦ d`, `E` without data. -/
@@ -335,5 +377,22 @@ example : weakCouplings exampleDiscs (sequence exampleDiscs) = ["a"] := by decid
 example : allCouplings exampleDiscs = ["a", "b", "c", "d"] := by decide +kernel
 example : stronglyCoupled exampleDiscs (sequence exampleDiscs) true = [1, 2, 3] := by decide +kernel
 example : weaklyCoupled exampleDiscs (sequence exampleDiscs) = [0, 4] := by decide +kernel
+
+/-- The same disciplines listed backwards. -/
+def exampleDiscsRev : List Disc := exampleDiscs.reverse
+
+example : Relisting exampleDiscs exampleDiscsRev (fun i => 4 - i) (fun i => 4 - i) where
+  length_eq := by decide
+  σ_lt := by intro i hi; simp [exampleDiscs] at hi ⊢; omega
+  τ_lt := by intro i hi; simp [exampleDiscs] at hi ⊢; omega
+  τσ := by intro i hi; simp [exampleDiscs] at hi; omega
+  στ := by intro i hi; simp [exampleDiscs] at hi; omega
+  get := by
+    intro i hi
+    simp [exampleDiscs] at hi
+    have : i = 0 ∨ i = 1 ∨ i = 2 ∨ i = 3 ∨ i = 4 := by omega
+    rcases this with rfl | rfl | rfl | rfl | rfl <;> rfl
+-- the groups are the same sets, numbered differently
+example : sequence exampleDiscsRev = [[[4]], [[2, 3]], [[0], [1]]] := by decide +kernel
 
 end GV.C08
